@@ -247,5 +247,5 @@ def loop_var(func_node: ast.AST, iter_suffix: str) -> str:
   """Name of the element variable of the (single) loop over `...<iter_suffix>`."""
   ls = loop_targets(func_node, iter_suffix)
   if len(ls) != 1:
-    raise Exception(f'expected one loop over *{iter_suffix}, found {len(ls)}')
+    raise index.AnalysisError(f'expected one loop over *{iter_suffix}, found {len(ls)}')
   return ls[0][1][-1]
